@@ -4,6 +4,10 @@
 // pkg/certwatcher to it. The body below IS the standard library's
 // implementation (go1.26 crypto/tls/tls.go: ReadFile(cert), ReadFile(key),
 // X509KeyPair) plus the vhook.Point line.
+//
+// ReadFile is os.ReadFile with a scheduling point in front of it; direct
+// os.ReadFile calls in pkg/certwatcher (the unchanged code has none; edits of
+// it may) are redirected to it so that file reads stay interleavable.
 package vtlsshim
 
 import (
@@ -24,4 +28,9 @@ func LoadX509KeyPair(certFile, keyFile string) (tls.Certificate, error) {
 		return tls.Certificate{}, err
 	}
 	return tls.X509KeyPair(certPEMBlock, keyPEMBlock)
+}
+
+func ReadFile(name string) ([]byte, error) {
+	vhook.Point("os.ReadFile.before", name)
+	return os.ReadFile(name)
 }
